@@ -3,7 +3,6 @@ package samlsim
 import (
 	"bytes"
 	"crypto"
-	"crypto/rand"
 	"crypto/x509"
 	"encoding/base64"
 	"encoding/pem"
@@ -138,10 +137,14 @@ func resetGlobals() {
 	jwt.TimeFunc = func() time.Time { return time.Now().Add(curSkew) }
 	saml.MaxIssueDelay = 90 * time.Second
 	saml.MaxClockSkew = 180 * time.Second
-	saml.RandReader = rand.Reader
-	xmlenc.RandReader = rand.Reader
+	saml.RandReader = libRandReader
+	xmlenc.RandReader = libEncRandReader
 	saml.Clock = nil
 }
+
+// The random sources the library starts out with (crypto/rand on the pinned tree), captured before anything replaces them: a run
+// that installs no source of its own (the C20 scheduler profile) runs on exactly what an application that configures nothing gets.
+var libRandReader, libEncRandReader = saml.RandReader, xmlenc.RandReader
 
 // installRand installs plan-derived deterministic readers behind the two randomness seams.
 func installRand(p *Plan) (samlRand, encRand *detReader) {
